@@ -2,19 +2,31 @@
 
 Obligations
   theorems   Cppcheck.XmlWf.strict_prefix_not_wf / complete_document_loads (byte level: model of tinyxml2's parser),
-             Cppcheck.CacheCrash.crash_then_run_eq_fresh_partial (+ crash_once…, run_on_foreign_dir_eq_fresh,
-             usable_eq_decision) and the counterexample theorems for the full-strength statement (F20a summaries, F20b
-             checkers report) and for the skipped-file premise
-  T1..T6     source-shape checks of lib/analyzerinfo.cpp, lib/cppcheck.cpp, cli/cppcheckexecutor.cpp (the literals and
-             statements the model copies; the document literals are compared with the model's through the driver)
+             Cppcheck.CacheCrash.crash_then_run_eq_no_build_dir_partial (THE property: after any history of kills the complete run
+             = a run WITHOUT build dir) + crash_then_run_eq_fresh_partial, crash_once…, run_on_foreign_dir_eq_fresh,
+             usable_eq_decision, and the counterexample theorems (F20a summaries, F20b checkers report, skipped-file premise)
+  T:body:*   fail-closed translators: sha1 of the comment/whitespace-stripped bodies of every function (or window) the
+             file-level model copies (analyzerinfo.cpp: close, skipAnalysis, getAnalyzerInfoFile, analyzeFile, reportErr,
+             setFileInfo, processFilesTxt, reopen, writeFilesTxt; cppcheck.cpp: checkInternal before the analysis + its exits,
+             analyseWholeProgram(buildDir); cppcheckexecutor.cpp: check_internal, the loadSummaries statement; summaries.cpp:
+             loadReturn, getSummaryFiles): ANY edit (also an added path) breaks the obligation
+  T1..T3,T7  header/footer/item literals = model literals (through the driver); cache files are opened for writing only in
+             analyzerinfo.cpp (two places)
   C1         tinyxml2 as linked into cppcheck (in-process harness) == XmlWf.load on EVERY byte prefix of the cache files the
              real binary wrote during this run (complete and crashed ones) + generated XML-ish strings
-  C2         `analyzeFile`'s decision on each cache file of each post-crash build directory, as printed by the real binary
-             (--debug-analyzerinfo), == XmlWf.decision on the bytes found on disk
-  H1         hypothesis validation: every item of every cache file written by the real binary is `balancedItem`, every key
-             is decimal, and the re-assembled document is byte-identical to the file
+  C2         `analyzeFile`'s decision on each cache file of each post-kill build directory (--debug-analyzerinfo) ==
+             XmlWf.decision on the bytes found on disk
+  C3         THE FILE-LEVEL MODEL executed on every real post-kill state: the on-disk state is mapped to `crashDir` (each cache
+             file must be a byte prefix of the document a complete run writes — otherwise the kill state is outside the model and
+             reported), the driver runs `completeRun`/`runActions`/`collectInfos`/`noBuildDirRun` on it with the real items, and the
+             result is compared with what the real complete run did: per-file action (early | replay | analyse), set of findings,
+             whole-program load error, sizes and bytes of the cache files left behind
+  M1         per project: run on an empty build dir == run without build dir
+  H1         hypothesis validation: every item of every cache file written by the real binary is `balancedItem`, decimal key
 P_impl       for every explored kill point / byte truncation: findings of the complete run that follows == findings of a run
-             on an empty build directory (multiset of template lines)
+             WITHOUT build directory.  Kill models: (a) VERIF_CRASH_AT hook (the process that performs the k-th event dies: whole
+             run for -j1/thread, the worker for the process executor), (b) LD_PRELOAD shim harness/c20_killmain.c: SIGKILL to the
+             MAIN process at the k-th build-dir open/write/close of a worker, workers live on (kill -9 / OOM killer), (c) byte cuts
 """
 import concurrent.futures, glob, json, os, re, shutil, subprocess, time
 from .. import core, build_repo
@@ -22,19 +34,21 @@ from .. import core, build_repo
 ID = "C20"
 LEVEL = "proof"
 RULE = ("case = (project, executor j1|thread -j2|process -j2, kill kind cacheopen|cachewrite|cacheclose|cachereopen|finding|filedone, "
-        "k) or (project, cache file, byte length L of a torn write), followed by a complete run on the same build dir; distinct = "
+        "k) or (project, process executor, MAIN process killed at the k-th build-dir open|write|close of a worker) or (project, cache file, byte length L of a torn write), followed by a complete run on the same build dir; distinct = "
         "different tuple; non-trivial = the first run really died (exit 137 / worker killed) resp. the file was really cut; quick: "
         "every k of every kind for -j1 on two projects + witnesses + samples for the other executors / projects / byte cuts; "
         "thorough: every k of every kind x 3 executors x all projects, every byte cut of the small cache files")
 EXPLANATION = ("Lean: (1) a byte-level model of tinyxml2's parser proves that no strict prefix of a cache document (beyond the final "
                "newline) loads with a root element; (2) a file-level model of a run (summaries, files.txt, per-file reuse decision, "
                "cache rewrite, whole-program loading, checkers.txt) proves for every kill state of every executor and any history of "
-               "kills that the next complete run reports what a run on an empty build dir reports, under two hypotheses whose "
+               "kills that the next complete run reports what a run WITHOUT build dir reports, under two hypotheses whose "
                "necessity is proved by counterexample and reproduced on the real binary (F20a, F20b). The per-file analysis, the "
-               "whole-program analysis and the hash are parameters. Outside the model: suppressions (unmatchedSuppression "
+               "whole-program analysis and the hash are parameters. The file-level model is executed by the driver on every real "
+               "post-kill state (C3) and the code it copies is pinned by body hashes. Outside the model: suppressions (unmatchedSuppression "
                "entries appended through reopen are only a kill window), addons/ctu-info files, plist/dump outputs, the parse of "
                "<error>/<FileInfo> children (trusted round trip), BOM/entity handling of tinyxml2.")
 THEOREMS = ["Cppcheck.XmlWf.strict_prefix_not_wf", "Cppcheck.XmlWf.complete_document_loads",
+            "Cppcheck.CacheCrash.crash_then_run_eq_no_build_dir_partial", "Cppcheck.CacheCrash.empty_dir_run_eq_no_build_dir",
             "Cppcheck.CacheCrash.crash_then_run_eq_fresh_partial", "Cppcheck.CacheCrash.crash_once_then_run_eq_fresh",
             "Cppcheck.CacheCrash.run_on_foreign_dir_eq_fresh", "Cppcheck.CacheCrash.usable_eq_decision",
             "Cppcheck.CacheCrash.crash_then_run_eq_fresh_counterexample_summaries",
@@ -46,7 +60,7 @@ MODULES = ["Cppcheck.Props.C20"]
 TEMPLATE = "{file}:{line}:{id}:{message}"
 TIMEOUT = 90
 KINDS = ["cacheopen", "cachewrite", "cacheclose", "cachereopen", "finding", "filedone"]
-EXECS = {"j1": [], "thread": ["-j2", "--executor=thread"], "process": ["-j2", "--executor=process"]}
+EXECS = {"j1": [], "thread": ["-j2", "--executor=thread"], "process": ["-j2", "--executor=process"], "process3": ["-j3", "--executor=process"]}
 
 H_H = "static int hbad(void) { int a[2]; a[0] = 0; return a[3]; }\n"
 A_C = ('#include "h.h"\nint a1(void) { int x[2]; x[3] = 1; return hbad(); }\n#ifdef CFGA\nint a2(void) { char *p = 0; return *p; }\n#endif\n'
@@ -159,7 +173,116 @@ def split_items(data):
     return m.group(1), items, True
 
 
+def strip_code(text):
+    """C++ source without comments, whitespace collapsed (string literals kept)"""
+    out, i, n = [], 0, len(text)
+    while i < n:
+        c = text[i]
+        if c == '"' or c == "'":
+            j = i + 1
+            while j < n and text[j] != c:
+                j += 2 if text[j] == "\\" else 1
+            out.append(text[i:j + 1]); i = j + 1
+        elif text.startswith("//", i):
+            j = text.find("\n", i)
+            i = n if j < 0 else j
+        elif text.startswith("/*", i):
+            j = text.find("*/", i + 2)
+            i = n if j < 0 else j + 2
+        else:
+            out.append(c); i += 1
+    return re.sub(r"\s+", " ", "".join(out))
+
+
+def func_body(code, signature):
+    """body (outermost braces) of the function whose stripped source contains `signature` followed by its parameter list"""
+    k = code.find(signature)
+    if k < 0 or code.find(signature, k + 1) >= 0:
+        return None
+    i = code.find("{", k)
+    # the parameter list must not contain braces: the first '{' after the signature opens the body
+    depth, j, n = 0, i, len(code)
+    while j < n:
+        c = code[j]
+        if c == '"' or c == "'":
+            j += 1
+            while j < n and code[j] != c:
+                j += 2 if code[j] == "\\" else 1
+        elif c == "{":
+            depth += 1
+        elif c == "}":
+            depth -= 1
+            if depth == 0:
+                return code[i:j + 1]
+        j += 1
+    return None
+
+
+def window(body, start, end):
+    if body is None:
+        return None
+    a = body.find(start)
+    if a >= 0 and end is None:
+        return body[a:]
+    b = body.find(end, a + 1) if a >= 0 else -1
+    return body[a:b + len(end)] if a >= 0 and b >= 0 else None
+
+
+# sha1 (first 12 hex digits) of the stripped bodies / windows the file-level model copies.  ANY edit inside them makes the
+# obligation fail (fail closed: an added code path is a change), then the kill enumeration searches a failing input.
+BODY_HASHES = {'analyzerinfo:analyzeFile': '07b4b14cfc1f',
+ 'analyzerinfo:close': '40df53034007',
+ 'analyzerinfo:getAnalyzerInfoFile': 'b37f64767a1b',
+ 'analyzerinfo:processFilesTxt': 'a0e51d51540c',
+ 'analyzerinfo:reopen': '9d687437862f',
+ 'analyzerinfo:reportErr': '2d43e9228234',
+ 'analyzerinfo:setFileInfo': '448fe2443579',
+ 'analyzerinfo:skipAnalysis': '0c4c4faffdb7',
+ 'analyzerinfo:writeFilesTxt': 'cb0967eccc13',
+ 'cppcheck:analyseWholeProgram(buildDir)': '95727fdbf900',
+ 'cppcheck:checkInternal[before-analysis]': '4a9ee6aa8a30',
+ 'cppcheck:checkInternal[exits]': 'bd5c338a5d0d',
+ 'cppcheckexecutor:check[loadSummaries]': '2deaa9664dfd',
+ 'cppcheckexecutor:check_internal': '414b809c6e14',
+ 'summaries:getSummaryFiles': 'f507a33eec5a',
+ 'summaries:loadReturn': '9ffbd2d75f76'}
+
+
+def body_fragments():
+    def rd(*p):
+        return strip_code(open(os.path.join(core.REPO, *p), encoding="utf-8", errors="replace").read())
+    ai, cc, ce, su = rd("lib", "analyzerinfo.cpp"), rd("lib", "cppcheck.cpp"), rd("cli", "cppcheckexecutor.cpp"), rd("lib", "summaries.cpp")
+    ci = func_body(cc, "unsigned int CppCheck::checkInternal(")
+    fr = {
+        "analyzerinfo:close": func_body(ai, "void AnalyzerInformation::close("),
+        "analyzerinfo:skipAnalysis": func_body(ai, "std::string AnalyzerInformation::skipAnalysis("),
+        "analyzerinfo:getAnalyzerInfoFile": func_body(ai, "std::string AnalyzerInformation::getAnalyzerInfoFile("),
+        "analyzerinfo:analyzeFile": func_body(ai, "bool AnalyzerInformation::analyzeFile("),
+        "analyzerinfo:reportErr": func_body(ai, "void AnalyzerInformation::reportErr("),
+        "analyzerinfo:setFileInfo": func_body(ai, "void AnalyzerInformation::setFileInfo("),
+        "analyzerinfo:processFilesTxt": func_body(ai, "std::string AnalyzerInformation::processFilesTxt("),
+        "analyzerinfo:reopen": func_body(ai, "void AnalyzerInformation::reopen("),
+        "analyzerinfo:writeFilesTxt": func_body(ai, "void AnalyzerInformation::writeFilesTxt("),
+        "cppcheck:checkInternal[before-analysis]": window(ci, "std::unique_ptr<AnalyzerInformation> analyzerInformation;",
+                                                           "std::list<Directive> directives = preprocessor.createDirectives();"),
+        "cppcheck:checkInternal[exits]": window(ci, "} catch (const TerminateException &) {", None),
+        "cppcheck:analyseWholeProgram(buildDir)": func_body(cc, "unsigned int CppCheck::analyseWholeProgram(const std::string &buildDir"),
+        "cppcheckexecutor:check_internal": func_body(ce, "int CppCheckExecutor::check_internal("),
+        "summaries:loadReturn": func_body(su, "void Summaries::loadReturn("),
+        "summaries:getSummaryFiles": func_body(su, "static std::vector<std::string> getSummaryFiles("),
+    }
+    m = re.search(r"[^;{}]*settings\.loadSummaries\(\);[^;{}]*;", ce)
+    fr["cppcheckexecutor:check[loadSummaries]"] = m.group(0).strip() if m and ce.count("loadSummaries") == 1 else None
+    return fr
+
+
 def source_shape(res, drv):
+    import hashlib
+    for name, body in sorted(body_fragments().items()):
+        h = hashlib.sha1(body.encode()).hexdigest()[:12] if body is not None else None
+        ok = h is not None and BODY_HASHES.get(name) == h
+        res.oblig("T:body:" + name, ok, "translation",
+                  "" if ok else "the code the file-level model copies changed (or was not found): %s now %s, modelled %s" % (name, h, BODY_HASHES.get(name)))
     ai = open(os.path.join(core.REPO, "lib", "analyzerinfo.cpp"), encoding="utf-8", errors="replace").read()
     flat = re.sub(r"\s+", " ", re.sub(r"//[^\n]*", "", ai))
     rc, out, err = core.run_lines(drv, [], ["lits"])
@@ -176,18 +299,23 @@ def source_shape(res, drv):
     ok3 = ("mOutputStream << msg.toXML() << '\\n';" in flat and
            'mOutputStream << " <FileInfo check=\\"" << check << "\\">\\n" << fileInfo << " </FileInfo>\\n";' in flat)
     res.oblig("T3:item-writes", ok3, "translation", "" if ok3 else "reportErr / setFileInfo write something else than the model's items")
-    ok4 = all(x in flat for x in ['strcmp(rootNode->Name(), "analyzerinfo") != 0', 'rootNode->Attribute("hash")', "attr != std::to_string(hash)",
-                                  '"premium-invalidLicense", "premium-internalError", "internalError"',
-                                  "if (xmlError == tinyxml2::XML_SUCCESS) { const std::string err = skipAnalysis(analyzerInfoDoc, hash, errors); if (err.empty()) {",
-                                  "mOutputStream.open(analyzerInfoFile); if (!mOutputStream.is_open())"])
-    res.oblig("T4:reuse-decision-shape", ok4, "translation", "" if ok4 else "analyzeFile / skipAnalysis no longer have the shape the model copies")
-    ok5 = all(x in flat for x in ["if (error == tinyxml2::XML_ERROR_FILE_NOT_FOUND) {", 'return "failed to load \'" + xmlfile',
-                                  'return "no root node found in \'"', 'return "unexpected root node in \'"'])
-    res.oblig("T5:processFilesTxt-shape", ok5, "translation", "" if ok5 else "processFilesTxt changed")
-    ce = re.sub(r"\s+", " ", open(os.path.join(core.REPO, "cli", "cppcheckexecutor.cpp"), encoding="utf-8", errors="replace").read())
-    ok6 = ("settings.loadSummaries();" in ce and "AnalyzerInformation::writeFilesTxt(settings.buildDir, fileNames, mFileSettings); stdLogger.readActiveCheckers();" in ce
-           and ce.index("settings.loadSummaries();") < ce.index("AnalyzerInformation::writeFilesTxt("))
-    res.oblig("T6:run-start-order", ok6, "translation", "" if ok6 else "loadSummaries / writeFilesTxt / readActiveCheckers order changed")
+    # every place that opens a file of the build directory for writing is one the model knows (L2: one writer per cache file)
+    srcs = {}
+    for d in ("lib", "cli"):
+        for f in glob.glob(os.path.join(core.REPO, d, "*.cpp")):
+            srcs[os.path.relpath(f, core.REPO)] = strip_code(open(f, encoding="utf-8", errors="replace").read())
+    opens = sorted(f for f, c in srcs.items() if "mOutputStream.open(" in c)
+    okw = opens == ["lib/analyzerinfo.cpp"] and srcs["lib/analyzerinfo.cpp"].count("mOutputStream.open(") == 2
+    res.oblig("T7:cache-file-writers", okw, "translation", "" if okw else "cache files are opened for writing in %s" % opens)
+
+
+SPECIAL = (":unmatchedSuppression:", ":checkersReport:")
+RETRY_IDS = ("premium-invalidLicense", "premium-internalError", "internalError")
+
+
+def is_wp_error(line):
+    return ":internalError:" in line and ("failed to load '" in line or "no root node found in" in line or "unexpected root node in" in line
+                                          or "failed to parse '" in line or "empty afile from" in line)
 
 
 class Explorer:
@@ -195,7 +323,10 @@ class Explorer:
         self.ctx, self.res, self.drv, self.exe = ctx, res, drv, exe
         self.blobs = set()           # distinct cache file contents seen (for C1)
         self.decisions = []          # (desc, hash, bytes|None, real decision)
+        self.frun = []               # (desc, op line, observed dict, known key) for the file-level correspondence
+        self.shim = None
 
+    # ---- reference data of a project --------------------------------------------------------------------------
     def fresh(self, proj):
         bd = proj.newdir("fresh")
         rc, lines, out = proj.run(bd)
@@ -208,21 +339,96 @@ class Explorer:
             m = re.search(rb'<analyzerinfo hash="(\d+)">', data)
             proj.hash[name] = m.group(1) if m else b""
             self.blobs.add(data)
-        # cache file name of a source (files.txt)
         proj.afile = {}
         for l in open(os.path.join(bd, "files.txt")).read().split("\n"):
             if l.count(":") >= 3:
                 proj.afile[l.split(":")[3]] = l.split(":")[0]
+        # THE reference of the property: a run without build directory
         rcn, linesn, _ = proj.run(None)
-        self.res.count("fresh==no-build-dir:%s" % (linesn == lines))
+        proj.nobd_lines = linesn
+        same = linesn == lines
+        self.res.oblig("M1:empty-build-dir==no-build-dir:" + proj.name, same, "correspondence",
+                       "" if same else "a run on an empty build dir reports %s, a run without build dir %s" % (lines, linesn))
+        # the documents before the unmatched-suppression `reopen` phase (kill after the last file is done)
+        pre = proj.newdir("pre")
+        proj.run(pre, "j1", {"VERIF_CRASH_AT": "filedone:%d" % len(proj.sources)})
+        proj.pre_cache = cache_files(pre)
+        shutil.rmtree(pre, ignore_errors=True)
+        for data in proj.pre_cache.values():
+            self.blobs.add(data)
+        # ids: template lines <-> numbers, FileInfo blocks <-> numbers (0 = unknown whole-program input, 1 = processFilesTxt error, 2 = checkers line)
+        proj.lid, proj.iid = {}, {}
+        proj.items = {}
+        ok = True
+        for variant, cache in (("pre", proj.pre_cache), ("final", proj.fresh_cache)):
+            for af, data in cache.items():
+                h, items, good = split_items(data)
+                ok = ok and good
+                proj.items[(variant, af)] = [(it, self.payload(proj, it)) for it in items]
+        self.res.oblig("H0:reference-cache-files-split:" + proj.name, ok, "hypothesis", "" if ok else "a complete cache file of the fresh run does not split into items")
+        proj.early = {}
+        for src in proj.sources:
+            if proj.afile.get(src) not in proj.fresh_cache:
+                r = subprocess.run([proj.bin, "-q", "--template=" + TEMPLATE] + proj.opts + [src], cwd=proj.dir, stdout=subprocess.PIPE, stderr=subprocess.PIPE, timeout=TIMEOUT)
+                proj.early[src] = [self.lineid(proj, l) for l in r.stderr.decode("latin-1").split("\n") if l.strip() and not any(x in l for x in SPECIAL)]
+        per_file = set()
+        for src in proj.sources:
+            if src in proj.early:
+                per_file.update(proj.early[src])
+            else:
+                per_file.update(int(p[1:].rstrip("r")) for _, p in proj.items[("pre", proj.afile[src])] if p[0] == "E")
+        proj.wp_findings = sorted(set(self.lineid(proj, l) for l in linesn if not any(x in l for x in SPECIAL)) - per_file)
+        proj.wp_infos = [int(p[1:]) for src in proj.sources if src not in proj.early for _, p in proj.items[("pre", proj.afile[src])] if p[0] == "I"]
+
+    def lineid(self, proj, line):
+        if is_wp_error(line):
+            return 1
+        if line not in proj.lid:
+            proj.lid[line] = len(proj.lid) + 10
+        return proj.lid[line]
+
+    def payload(self, proj, item):
+        import xml.etree.ElementTree as ET
+        if item.lstrip().startswith(b"<FileInfo"):
+            if item not in proj.iid:
+                proj.iid[item] = len(proj.iid) + 1
+            return "I%d" % proj.iid[item]
+        try:
+            e = ET.fromstring(item.decode("latin-1"))
+            loc = e.find("location")
+            line = "%s:%s:%s:%s" % (loc.get("file") if loc is not None else "nofile", loc.get("line") if loc is not None else "0", e.get("id"), e.get("msg"))
+            if any(x in line for x in SPECIAL):
+                return "E3"          # unmatchedSuppression entries appended through `reopen`: outside the model, filtered on both sides
+            return "E%d%s" % (self.lineid(proj, line), "r" if e.get("id") in RETRY_IDS else "")
+        except Exception:
+            return "E0"
+
+    def items_spec(self, proj, variant, af):
+        its = proj.items.get((variant, af), [])
+        return ",".join("%s:%s" % (core.hx(b), p) for b, p in its) if its else "-"
+
+    # ---- one case ---------------------------------------------------------------------------------------------
+    def killshim(self):
+        if self.shim is None:
+            so = os.path.join(self.ctx.tmp, "c20_killmain.so")
+            r = subprocess.run(["cc", "-shared", "-fPIC", "-O1", "-o", so, os.path.join(core.VERIF, "harness", "c20_killmain.c"), "-ldl"],
+                               stdout=subprocess.PIPE, stderr=subprocess.STDOUT, text=True)
+            if r.returncode != 0:
+                raise core.CheckBroken("C20: kill shim does not compile: " + r.stdout[-800:])
+            self.shim = so
+        return self.shim
 
     def one(self, proj, case):
-        """run one case: returns dict(result fields)"""
         bd = proj.newdir("c")
         died = False
         if case["type"] == "kill":
             rc1, l1, _ = proj.run(bd, case["exec"], {"VERIF_CRASH_AT": "%s:%d" % (case["kind"], case["k"])})
             died = rc1 == 137 or any("cppcheckError" in l for l in l1)
+        elif case["type"] == "killmain":
+            # only the MAIN process is killed (SIGKILL) at the k-th build-dir operation of a worker; the workers live on
+            rc1, l1, _ = proj.run(bd, case["exec"], {"C20_KILLMAIN": "%s/:%s:%d" % (bd, case["kind"], case["k"]), "LD_PRELOAD": self.killshim()})
+            died = rc1 in (-9, 137)
+            time.sleep(0.05)
         else:
             shutil.rmtree(bd)
             shutil.copytree(proj.fresh_bd, bd)
@@ -234,16 +440,19 @@ class Explorer:
         keep = bd + "_crash"
         shutil.copytree(bd, keep)
         rc2, l2, out2 = proj.run(bd, case.get("exec2", "j1"), debug=True)
-        r = dict(case=case, died=died, snap=snap, rc2=rc2, lines2=l2, dec=parse_decisions(out2), keep=keep, bd=bd)
-        return r
+        post = cache_files(bd)
+        return dict(case=case, died=died, snap=snap, rc2=rc2, lines2=l2, dec=parse_decisions(out2), keep=keep, bd=bd, post=post)
 
     def judge(self, proj, r):
         res, case = self.res, r["case"]
         desc = "%s %s" % (proj.name, " ".join("%s=%s" % (k, case[k]) for k in sorted(case) if k != "type"))
-        res.case("kill|" + desc, r["died"], dict(tie="P_impl", op=desc, impl="run2=%d lines" % len(r["lines2"]), model="fresh=%d lines" % len(proj.fresh_lines))
+        res.case(case["type"] + "|" + desc, r["died"], dict(tie="P_impl", op=desc, impl="run2=%d lines" % len(r["lines2"]), model="no-build-dir=%d lines" % len(proj.nobd_lines))
                  if len(res.samples) < 6 else None)
         res.count("type:" + case["type"]); res.count("exec:" + case.get("exec", "-")); res.count("kind:" + case.get("kind", "bytecut"))
         res.count("first-run-died:%s" % r["died"])
+        res.extra["kill_cut_cases"] = res.extra.get("kill_cut_cases", 0) + 1
+        if r["died"]:
+            res.extra["kill_cut_cases_nontrivial"] = res.extra.get("kill_cut_cases_nontrivial", 0) + 1
         for name, data in r["snap"].items():
             self.blobs.add(data)
         for src in proj.sources:
@@ -256,14 +465,51 @@ class Explorer:
         if r["rc2"] is None:
             res.violation("complete run after %s did not terminate" % desc, dict(case=case, project=proj.name), True, "no-termination")
             return
-        if r["lines2"] != proj.fresh_lines:
-            extra = [l for l in r["lines2"] if l not in proj.fresh_lines]
-            missing = [l for l in proj.fresh_lines if l not in r["lines2"]]
+        replay = dict(case=case, project=proj.name, files=PROJECTS[proj.name]["files"], opts=proj.opts, replay_cmd="./check.py C20 --replay <this file>")
+        # (1) the kill state is one the model knows: every cache file is a byte prefix of the document the run writes into it
+        disk, outside = {}, []
+        for src in proj.sources:
+            af = proj.afile.get(src)
+            data = r["snap"].get(af)
+            pre, fin = proj.pre_cache.get(af), proj.fresh_cache.get(af)
+            if data is None:
+                disk[src] = "-"
+            elif pre is not None and pre.startswith(data):
+                disk[src] = "R%d" % len(data)
+            elif fin is not None and fin.startswith(data):
+                disk[src] = "X%d/%s/%s" % (len(data), core.hx(proj.hash[af]), self.items_spec(proj, "final", af))
+            else:
+                outside.append((src, data))
+        key = None
+        if outside:
+            src, data = outside[0]
+            res.violation("after %s the cache file of %s is not a byte prefix of the document a complete run writes (%d bytes, well-formed: %s): a kill "
+                          "state outside `CacheCrash.crashDir`" % (desc, src, len(data), data.rstrip().endswith(b"</analyzerinfo>")),
+                          dict(replay, cache_file=data.decode("latin-1")[-1500:]), True, None)
+            res.count("kill-state-outside-model")
+        # (2) P_impl: the complete run reports what a run WITHOUT build directory reports
+        if r["lines2"] != proj.nobd_lines:
+            extra = [l for l in r["lines2"] if l not in proj.nobd_lines]
+            missing = [l for l in proj.nobd_lines if l not in r["lines2"]]
             key = self.classify(proj, r, extra, missing)
-            res.violation("after %s the complete run differs from a run on an empty build dir: extra=%s missing=%s" % (desc, extra, missing),
-                          dict(case=case, project=proj.name, files=PROJECTS[proj.name]["files"], opts=proj.opts, extra=extra, missing=missing,
-                               replay_cmd="./check.py C20 --replay <this file>"), True, key)
+            res.violation("after %s the complete run differs from a run without build dir: extra=%s missing=%s" % (desc, extra, missing),
+                          dict(replay, extra=extra, missing=missing), True, key)
             res.count("differs:" + str(key))
+        # (3) the file-level model on this very state
+        if not outside:
+            fl = []
+            for i, src in enumerate(proj.sources):
+                af = proj.afile.get(src)
+                early = ("e" + ",".join(map(str, proj.early[src]))) if src in proj.early else "-"
+                fl.append("%d;%s;%s;%s;%s" % (i, core.hx(proj.hash.get(af, b"")), early, self.items_spec(proj, "pre", af), disk[src]))
+            op = "frun 0 wp=%s:%s %s" % (",".join(map(str, proj.wp_infos)) or "-", ",".join(map(str, proj.wp_findings)) or "-", " ".join(fl))
+            acts = "".join("e" if src in proj.early and src not in r["dec"] else "r" if r["dec"].get(src) == "reuse" else "a" if src in r["dec"] else "?"
+                           for src in proj.sources)
+            ids = sorted(set(self.lineid(proj, l) for l in r["lines2"] if not any(x in l for x in SPECIAL)))
+            nosupp = not any(o.startswith("--suppress") for o in proj.opts)
+            post = ",".join("-" if proj.afile.get(src) not in r["post"] else "%d" % len(r["post"][proj.afile[src]]) for src in proj.sources) if nosupp else None
+            postbytes = [(r["post"].get(proj.afile.get(src)), proj.fresh_cache.get(proj.afile.get(src))) for src in proj.sources] if nosupp else None
+            self.frun.append((desc, op, dict(actions=acts, ids=ids, wperr=any(is_wp_error(l) for l in r["lines2"]), post=post, postbytes=postbytes), key))
         for d in (r["keep"], r["bd"]):
             shutil.rmtree(d, ignore_errors=True)
 
@@ -280,7 +526,7 @@ class Explorer:
             os.remove(p); removed += 1
         rc, lines, _ = proj.run(ctl, r["case"].get("exec2", "j1"))
         shutil.rmtree(ctl, ignore_errors=True)
-        if removed and lines == proj.fresh_lines:
+        if removed and lines == proj.nobd_lines:
             return "summaries-after-crash"
         return None
 
@@ -291,13 +537,13 @@ class Explorer:
             self.judge(proj, r)
         return rs
 
-    def kill_cases(self, proj, execname, kinds=KINDS, maxk=60):
+    def kill_cases(self, proj, execname, kinds=KINDS, maxk=60, ctype="kill"):
         """every k of every kind until the first run survives (all kinds advance together, three k per round)"""
         out = []
         active = list(kinds)
         k = 1
         while active and k <= maxk:
-            batch = [dict(type="kill", exec=execname, kind=kind, k=kk) for kind in active for kk in range(k, k + 3)]
+            batch = [dict(type=ctype, exec=execname, kind=kind, k=kk) for kind in active for kk in range(k, k + 3)]
             rs = self.explore(proj, batch)
             out += rs
             active = [kind for kind in active if all(r["died"] for r in rs if r["case"]["kind"] == kind)]
@@ -306,6 +552,47 @@ class Explorer:
 
     def finish(self):
         res, ctx = self.res, self.ctx
+        # C3: the file-level model (`completeRun` on `crashDir`, `runActions`, `collectInfos`, `noBuildDirRun`) executed by the driver on
+        # the real post-kill state vs. what the real complete run did: per-file action, findings, whole-program load error, directory left
+        if self.frun:
+            rc, out, err = core.run_lines(self.drv, [], [op for _, op, _, _ in self.frun], timeout=900)
+            bad, badpost, outside = [], [], 0
+            if len(out) != len(self.frun):
+                bad.append(("driver", "produced %d lines for %d ops: %s" % (len(out), len(self.frun), err[-300:]), ""))
+            for (desc, op, obs, key), o in zip(self.frun, out):
+                m = re.match(r"^actions=(\S+) findings=(\S+) wp=(ok|err) post=(\S*) nobd=(\S+)$", o)
+                if not m:
+                    bad.append((desc, "driver line: " + o[:200], "")); continue
+                mids = sorted(set(int(x) for x in m.group(2).split(",") if x != "-") - {3})
+                nobd = sorted(set(int(x) for x in m.group(5).split(",") if x != "-") - {3})
+                impl = "actions=%s ids=%s wperr=%s" % (obs["actions"], obs["ids"], obs["wperr"])
+                model = "actions=%s ids=%s wperr=%s" % (m.group(1), mids, m.group(3) == "err")
+                res.case("frun|" + desc, True, dict(tie="file-level-model", op=desc, impl=impl, model=model) if len(res.samples) < 9 else None)
+                if key is not None:
+                    # outside the theorem's hypotheses (F20a: analysis depends on summaries; F20b: checkers line): only the actions are comparable
+                    outside += 1
+                    impl, model = "actions=" + obs["actions"], "actions=" + m.group(1)
+                if impl != model:
+                    bad.append((desc, impl, model))
+                else:
+                    res.traces_validated += 1
+                if key is None and mids != nobd:
+                    bad.append((desc, "model completeRun=%s" % mids, "model noBuildDirRun=%s" % nobd))
+                if obs["post"] is not None and key is None:
+                    mpost = ",".join(x.split(":")[0] for x in m.group(4).split(","))
+                    # byte-identical to the document of the fresh run, cut where the model says
+                    same = mpost == obs["post"] and all((real is None and fr is None) or (real is not None and fr is not None and fr[:len(real)] == real)
+                                                        for real, fr in obs["postbytes"])
+                    if not same:
+                        badpost.append((desc, "real sizes %s" % obs["post"], "model sizes " + mpost))
+            res.oblig("correspondence:file-level-run-model", not bad, "correspondence",
+                      "" if not bad else "%d of %d post-kill states: the real complete run and `completeRun` disagree; first: %s impl=[%s] model=[%s]" %
+                      (len(bad), len(self.frun), bad[0][0], bad[0][1], bad[0][2]))
+            res.oblig("correspondence:post-run-directory", not badpost, "correspondence",
+                      "" if not badpost else "%d states: the directory left by the real complete run differs from the model's / the fresh one; first: %s %s | %s" %
+                      (len(badpost), badpost[0][0], badpost[0][1], badpost[0][2]))
+            res.extra["file_level_model_states"] = len(self.frun)
+            res.extra["file_level_model_states_outside_hypotheses"] = outside
         # C2: reuse decisions
         ops, real = [], []
         for desc, h, data, dec in self.decisions:
@@ -410,9 +697,17 @@ def run(ctx, res):
     # corpus (witnesses of the known findings) first
     for c in load_corpus():
         ex.explore(projs[c["project"]], [dict(type="kill", exec=c["exec"], kind=c["kind"], k=c["k"])])
+    # kill model 2: only the MAIN process is killed while workers run (process executor); every k of every operation kind
+    KM = ["open", "write", "close"]
     if thorough:
         for name, p in projs.items():
-            for execname in EXECS:
+            ex.kill_cases(p, "process", kinds=KM, ctype="killmain")
+        ex.kill_cases(projs["base3"], "process3", kinds=KM, ctype="killmain")
+    else:
+        ex.kill_cases(projs["base3"], "process", kinds=KM, ctype="killmain")
+    if thorough:
+        for name, p in projs.items():
+            for execname in ("j1", "thread", "process"):
                 ex.kill_cases(p, execname)
     else:
         ex.kill_cases(projs["base3"], "j1")
@@ -434,6 +729,13 @@ def run(ctx, res):
             cuts += [dict(type="cut", file=af, len=L) for L in ls if 0 <= L <= len(data)]
         ex.explore(p, cuts)
     ex.finish()
+    res.assumptions += [
+        "WellFormedWorld: every <error> / <FileInfo> item the analysis writes is balanced XML — validated on every cache file written during this run (H1), not proved from ErrorMessage::toXML / FileInfo::toString",
+        "the whole-program analysis is the same function of the same FileInfo blocks whether they are kept in memory (no build dir) or re-read from the cache files (C22); tied per project by M1 (empty build dir == no build dir)",
+        "a cached <error> element replays as the finding that was written (round trip of ErrorMessage XML, C26); the model identifies them",
+        "findings are compared as sets of template lines (the outer logger's duplicate filter is C15's)",
+        "files.txt assigns the same cache file names on every run with the same inputs",
+    ]
     res.extra["exhaustive"] = dict(dimension="kill index k for every kind (cacheopen, cachewrite, cacheclose, cachereopen, finding, filedone) "
                                    + ("x {j1, thread -j2, process -j2} x 4 projects; every byte cut of cache files <= 200 bytes" if thorough
                                       else "for -j1 on projects base3 / early2 (+ reopen/close windows of info3)"), value=True)
@@ -446,8 +748,8 @@ def replay(ctx, res, rp):
     ex = Explorer(ctx, res, drv, exe)
     ex.fresh(p)
     r = ex.one(p, rp["case"])
-    bad = r["lines2"] != p.fresh_lines
-    print("replay: fresh=%s\n        after=%s" % (p.fresh_lines, r["lines2"]))
+    bad = r["lines2"] != p.nobd_lines
+    print("replay: no-build-dir=%s\n        after=%s" % (p.nobd_lines, r["lines2"]))
     if bad:
         print("VIOLATION property=C20 replay=(replayed) complete run after the kill differs from the fresh run")
     return 1 if bad else 0
